@@ -276,7 +276,9 @@ pub fn lifecycle(c: &Ctx) -> Result<(), Violation> {
             if !term(o.status) && o.end != TMAX {
                 return Err(c.v("illegal-transition", of("end_time"), "unset until terminal".into(), o.end.to_string()));
             }
-            if term(o.status) && o.end == TMAX {
+            // (an order that ends at the last representable instant ends at a time equal to the "no end yet" value: that is
+            // the time it happened, not a missing stamp)
+            if term(o.status) && o.end == TMAX && post.t != TMAX {
                 return Err(c.v("illegal-transition", of("end_time"), "set at termination".into(), "unset".into()));
             }
             if o.status == FILLED && o.vol != 0 {
